@@ -348,7 +348,7 @@ def gen_deck(rng, force=None):
 # malformed / out-of-scope lattice cells (tie only)
 # ---------------------------------------------------------------------------
 
-def break_deck(rng, deck, meta):
+def break_deck(rng, deck, meta, fault=None):
     '''Mutate a generated deck into one outside the property's hypotheses.
     Returns the fault name.'''
     cell = next(c for c in deck['cells'] if c['id'] == LAT_CELL)
@@ -365,7 +365,8 @@ def break_deck(rng, deck, meta):
         faults += ['too_few_ranges', 'too_few_ranges']
     if meta['rpp']:
         faults = ['range_in_padding', 'too_many_ranges']
-    fault = rng.choice(faults)
+    if fault is None or fault not in faults:
+        fault = rng.choice(faults)
     fill = cell['fill']
     if fault == 'drop_surface':
         lits = lits[:-1]
